@@ -35,7 +35,7 @@ def rand_net4(r, lens=(8, 12, 16, 20, 24, 28, 30, 32)):
 def gen_knobs(r):
     return {"set_key": "%08x" % r.getrandbits(32), "rand_seed": r.getrandbits(32), "urandom_key": r.getrandbits(32),
             "clock": 1_500_000_000 + r.getrandbits(28), "pid": r.randint(2, 60000),
-            "host": r.choice(["rtr-lab-1", "build42", "localhost", "anon-box"]), "sched_key": "%08x" % r.getrandbits(32),
+            "host": r.choice(["rtr-lab-1", "build42", "localhost", "anon-box"]), "sched_key": "%08x" % r.getrandbits(32), "cli_style": r.choice([0, 0, 1, 2, 3, 4, 5, 7]),
             "cwd": r.choice(["/home/alice/configs", "/srv/netconan/work", "/", "/tmp/x y"]),
             "environ": {"TZ": r.choice(["UTC", "Asia/Tokyo", "America/Lima"]), "LANG": r.choice(["C", "en_US.UTF-8", "de_DE.UTF-8"]),
                         "USER": r.choice(["root", "alice", "svc-netconan"]), "COLUMNS": str(r.choice([80, 132, 200]))},
@@ -74,13 +74,16 @@ DIRECTED_IMAGES = [0x00000007, 0x0000FFFF, 0x80000000, 0xFFFFFF00, 0xFFFF0000, 0
                    0xE00000FB, 0x7F000001, 0xA9FE0001, 0xC0000201, 0x64400001, 0xFFFFFFFF, 0x00000000, 0x0A000001, 0xC0A80101]
 
 
-def boundary_line(r, ctx, boundary=None):
-    """One very long line with address tokens packed around a power-of-two offset (reader block sizes)."""
+def boundary_line(r, ctx, boundary=None, words=False):
+    """One very long line with address (or sensitive-word) tokens packed around a power-of-two offset (reader block sizes)."""
     boundary = boundary or r.choice([8192, 65536, 65536, 131072])
     pad = boundary - r.randint(10, 150)
     segs = [["lit", "! " + "x" * (pad - 2) + " "]]
-    for i in range(r.randint(10, 16)):
-        if ctx["a6"] and r.random() < 0.3:
+    for i in range(r.randint(10, 16) if not words else r.randint(24, 40)):
+        if words:
+            wi = r.randrange(len(ctx["words"]))
+            segs.append(["w", ctx["words"][wi], {"w": wi}])
+        elif ctx["a6"] and r.random() < 0.3:
             v = r.choice(ctx["a6"])
             segs.append(["a6", G.tok6(r, v), {"v": v}])
         else:
